@@ -2171,8 +2171,8 @@ class InstRWInfoTable extends core.Task {
             width: -1
           };
 
-          if (op.consecutiveLeadCount)
-            d.clc = op.consecutiveLeadCount;
+          if (op.consecutive_lead_count)
+            d.clc = op.consecutive_lead_count;
 
           const instName = dbInst.name;
           // NOTE: Avoid push/pop here as PUSH/POP has many variations for segment registers,
